@@ -80,3 +80,124 @@ func VerifH_TinyWideLRUHistory() {
 	}
 	symx.Reach("end")
 }
+
+// C04/H3 (cache/tiny): two goroutines, one operation each (A: Set / SetIfAbsent / SetAndGetRemoved, B: Get / Delete /
+// Peek / Set / SetIfAbsent, symbolic keys that may coincide), all interleavings: no data race, and results
+// and final cache are those of the ideal cache after one of the two sequential orders.
+func VerifH_LRUConcurrent() {
+	c, id := verifBuild()
+	id2 := &verifIdeal{ents: append([]verifEnt(nil), id.ents...), size: id.size, capacity: id.capacity, evictions: id.evictions}
+	ka, kb := symx.Int("ka"), symx.Int("kb")
+	va := verifItem{size: 1, tag: 1} // tiny counts entries: every item weighs 1
+	vb := verifItem{size: 1, tag: 2}
+	opA := symx.Concrete(symx.Int("opA"), 0, 2)
+	opB := symx.Concrete(symx.Int("opB"), 0, 4)
+	var gotB interface{}
+	var okB bool
+	var remA []interface{}
+	symx.Go("A", func() {
+		switch opA {
+		case 0:
+			c.Set(ka, va)
+		case 1:
+			c.SetIfAbsent(ka, va)
+		case 2:
+			remA = c.SetAndGetRemoved(ka, va)
+		}
+	})
+	symx.Go("B", func() {
+		switch opB {
+		case 0:
+			gotB, okB = c.Get(kb)
+		case 1:
+			okB = c.Delete(kb)
+		case 2:
+			gotB, okB = c.Peek(kb)
+		case 3:
+			c.Set(kb, vb)
+		case 4:
+			c.SetIfAbsent(kb, vb)
+		}
+	})
+	symx.WaitQuiescent()
+	setIfAbsent := func(m *verifIdeal, k int, v verifItem) {
+		if i := m.find(k); i >= 0 {
+			m.toFront(i)
+		} else {
+			m.set(k, v)
+		}
+	}
+	applyA := func(m *verifIdeal) []verifItem {
+		switch opA {
+		case 0:
+			m.set(ka, va)
+		case 1:
+			setIfAbsent(m, ka, va)
+		case 2:
+			return m.set(ka, va)
+		}
+		return nil
+	}
+	applyB := func(m *verifIdeal) (interface{}, bool) {
+		switch opB {
+		case 3:
+			m.set(kb, vb)
+			return nil, false
+		case 4:
+			setIfAbsent(m, kb, vb)
+			return nil, false
+		}
+		i := m.find(kb)
+		if i < 0 {
+			return nil, false
+		}
+		v := m.ents[i].val
+		switch opB {
+		case 0:
+			m.toFront(i)
+			return v, true
+		case 1:
+			m.size -= m.ents[i].size
+			m.ents = append(m.ents[:i:i], m.ents[i+1:]...)
+			return nil, true
+		}
+		return v, true
+	}
+	// order A;B
+	r1 := applyA(id)
+	g1, o1 := applyB(id)
+	// order B;A
+	g2, o2 := applyB(id2)
+	r2 := applyA(id2)
+	same := func(m *verifIdeal, rem []verifItem, g interface{}, o bool) bool {
+		if o != okB {
+			return false
+		}
+		if o && (opB == 0 || opB == 2) && g.(verifItem) != gotB.(verifItem) {
+			return false
+		}
+		if opA == 2 {
+			if len(rem) != len(remA) {
+				return false
+			}
+			for i := range rem {
+				if remA[i].(verifItem) != rem[i] {
+					return false
+				}
+			}
+		}
+		keys := c.Keys()
+		items := c.Items()
+		if len(keys) != len(m.ents) || len(items) != len(m.ents) || c.Size() != m.size || c.Evictions() != m.evictions {
+			return false
+		}
+		for i := range keys {
+			if keys[i].(int) != m.ents[i].key || items[i].Value.(verifItem) != m.ents[i].val {
+				return false
+			}
+		}
+		return true
+	}
+	symx.Assert(same(id, r1, g1, o1) || same(id2, r2, g2, o2), "concurrent operations behave as one of the two sequential orders")
+	symx.Reach("end")
+}
